@@ -1,16 +1,21 @@
-(* Proofs about the event-level asset replication model (Assets.v) AFTER the two repairs of the Rust code
-   (R1: the debounce token is a counter; R2: request() always starts the download): properties C06 and C09.
+(* Proofs about the event-level asset replication model (Assets.v) AFTER the three repairs of the Rust code
+   (R1: the debounce token is a counter; R2: request() always starts the download; S26: the snapshot of a join
+   hands on the owner of the host's latest pending download instead of the host's old copy): properties C06
+   and C09.
 
    Part 0-2: channel operations, one-step characterisations, well-formedness (A1: awf_invariant)
    Part 3 : invariants of EVERY run ([Basic]: tokens never exceed unread events, ...), no echo (A5: no_echo)
-   Part 4 : the publisher invariant [Inv w]; C06 when the publisher changes only in quiescent states
-            (C06_handover), for one publisher at any pace (A2: C06_single_publisher), for drain separated
-            publishers (A3: C06_drain_separated)
-   Part 5 : the old defect witnesses now converge (Examples); what remains false (A4): the join window
-            (join_during_download_refuted, join_during_overwrite_refuted, C06_any_join_refuted), a preloaded
-            joiner (join_preloaded_overwritten, join_preloaded_private_refuted), concurrent publishers
-   Part 6 : stability and joins (A6: quiescent_is_stable, join_gets_asset, join_from_agreement)
-   Part 7 : traffic and termination (A5: traffic_bound, publication_cost, plain_steps_bounded,
+   Part 4 : the publisher invariant [Inv w] (preserved by a fresh join at ANY moment: inv_join_idle,
+            inv_join_pend); C06 when the publisher changes only in quiescent states (C06_handover_any_join),
+            for one publisher at any pace (A2: C06_single_publisher_any_join), for drain separated publishers
+            (A3: C06_drain_separated).  The former statements, which also required "no join while the host has
+            a pending download" (joins_ok), are kept as corollaries (C06_handover, C06_single_publisher, ...)
+   Part 5 : the old defect witnesses now converge (Examples), those of the former join window included
+            (join_during_download_converges, join_during_overwrite_converges, join_during_burst_converges;
+            C06_any_join_holds); what remains false (A4): a preloaded joiner (join_preloaded_overwritten,
+            join_preloaded_private_refuted), concurrent publishers
+   Part 6 : stability and joins (A6: quiescent_is_stable, join_gets_asset_any_join, join_from_agreement)
+   Part 7 : traffic and termination (A5: join_cost, traffic_bound, publication_cost, plain_steps_bounded,
             quiescence_reachable, only_publisher_serves, host_serves_only_for_joins)
    Part M : materials (M1: M06_single_publisher / M06_handover, M2: M06_drain_separated, M3: mno_echo,
             M4: mtraffic_bound, mpublication_cost, mplain_steps_bounded, mquiescence_reachable)
@@ -246,36 +251,70 @@ Proof.
   - intros q Hne. unfold set_peer. destruct s; simpl. apply getp_insert_ne. exact Hne.
 Qed.
 
-(* AJoin *)
-Definition snapshot (s : astate) : list peer := match pstore s host with Some _ => [host] | None => [] end.
+(* AJoin.  After the repair of S26 the snapshot names the owner of the host's LATEST pending download when there
+   is one (and then the host serves nothing); otherwise the host serves its copy and names itself *)
+Definition snapshot (s : astate) : list peer :=
+  match last (ppending s host) with
+  | Some o => [o]
+  | None => match pstore s host with Some _ => [host] | None => [] end
+  end.
+Definition join_host (s : astate) : apeer :=
+  match last (ppending s host) with Some _ => getp s host | None => serve_store (getp s host) end.
+
+Lemma snapshot_idle s :
+  ppending s host = [] -> snapshot s = match pstore s host with Some _ => [host] | None => [] end.
+Proof. intros H. unfold snapshot. rewrite H. reflexivity. Qed.
+Lemma join_host_idle s : ppending s host = [] -> join_host s = serve_store (getp s host).
+Proof. intros H. unfold join_host. rewrite H. reflexivity. Qed.
+Lemma snapshot_pend s o : last (ppending s host) = Some o -> snapshot s = [o].
+Proof. intros H. unfold snapshot. rewrite H. reflexivity. Qed.
+Lemma join_host_pend s o : last (ppending s host) = Some o -> join_host s = getp s host.
+Proof. intros H. unfold join_host. rewrite H. reflexivity. Qed.
+Lemma join_host_fields s :
+  store (join_host s) = pstore s host /\ events (join_host s) = pevents s host /\
+  tok (join_host s) = ptok s host /\ pending (join_host s) = ppending s host.
+Proof. unfold join_host. destruct (last (ppending s host)); repeat split; reflexivity. Qed.
 
 Lemma step_join s c pre s' :
   astep s (AJoin c pre) = Some s' ->
   c <> host /\ c ∉ aconn s /\ ap s !! c = None /\ aconn s' = aconn s ++ [c] /\
   (forall q, is_Some (ap s' !! q) <-> is_Some (ap s !! q) \/ q = c \/ q = host) /\
   getp s' c = APeer pre 0 0 pre [] /\
-  getp s' host = serve_store (getp s host) /\
+  getp s' host = join_host s /\
   (forall q, q <> c -> q <> host -> getp s' q = getp s q) /\
   (forall a b, link s' a b = if decide ((a, b) = (host, c)) then link s host c ++ snapshot s else link s a b).
 Proof.
   simpl. destruct (c =? host)%N eqn:Hc; [discriminate|]. apply N.eqb_neq in Hc.
   destruct (bool_decide (c ∈ aconn s)) eqn:Hin; [discriminate|]. apply bool_decide_eq_false in Hin.
   unfold pexists. destruct (bool_decide (is_Some (ap s !! c))) eqn:Hex; [discriminate|].
-  apply bool_decide_eq_false in Hex. simpl. intros [= <-].
+  apply bool_decide_eq_false in Hex. simpl.
   assert (Hnone : ap s !! c = None) by (destruct (ap s !! c); [exfalso; eauto|reflexivity]).
-  split; [exact Hc|]. split; [exact Hin|]. split; [exact Hnone|]. split; [reflexivity|].
-  split; [|split; [|split; [|split]]].
-  - intros q. simpl. destruct (decide (q = c)) as [->|Hne].
-    + rewrite lookup_insert. split; eauto.
-    + rewrite lookup_insert_ne by congruence. destruct (decide (q = host)) as [->|Hnh].
+  unfold snapshot, join_host, ppending. destruct (last (pending (getp s host))) as [o|] eqn:Hlast; intros [= <-].
+  - (* the host is downloading: nothing is served, the joiner is told the owner of the latest request *)
+    assert (Hhex : is_Some (ap s !! host)).
+    { destruct (ap s !! host) as [x|] eqn:Hx; [eauto|]. rewrite (getp_none _ _ Hx) in Hlast. discriminate. }
+    split; [exact Hc|]. split; [exact Hin|]. split; [exact Hnone|]. split; [reflexivity|].
+    split; [|split; [|split; [|split]]].
+    + intros q. simpl. destruct (decide (q = c)) as [->|Hne].
       * rewrite lookup_insert. split; eauto.
-      * rewrite lookup_insert_ne by congruence. split; [auto|]. intros [H|[H|H]]; [exact H|contradiction|contradiction].
-  - apply getp_insert.
-  - unfold getp at 1. simpl. rewrite lookup_insert_ne by congruence. rewrite lookup_insert. reflexivity.
-  - intros q Hqc Hqh. unfold getp. simpl. rewrite !lookup_insert_ne by congruence. reflexivity.
-  - intros a b. unfold link, snapshot, pstore. simpl. destruct (store (getp s host)) as [v|].
-    + apply lget_push_link.
-    + destruct (decide _) as [Heq|_]; [|reflexivity]. inversion Heq; subst. rewrite app_nil_r. reflexivity.
+      * rewrite lookup_insert_ne by congruence. split; [auto|]. intros [H|[H|H]]; [exact H|contradiction|subst q; exact Hhex].
+    + apply getp_insert.
+    + unfold getp at 1. simpl. rewrite lookup_insert_ne by congruence. reflexivity.
+    + intros q Hqc Hqh. unfold getp. simpl. rewrite !lookup_insert_ne by congruence. reflexivity.
+    + intros a b. unfold link. simpl. apply lget_push_link.
+  - split; [exact Hc|]. split; [exact Hin|]. split; [exact Hnone|]. split; [reflexivity|].
+    split; [|split; [|split; [|split]]].
+    + intros q. simpl. destruct (decide (q = c)) as [->|Hne].
+      * rewrite lookup_insert. split; eauto.
+      * rewrite lookup_insert_ne by congruence. destruct (decide (q = host)) as [->|Hnh].
+        -- rewrite lookup_insert. split; eauto.
+        -- rewrite lookup_insert_ne by congruence. split; [auto|]. intros [H|[H|H]]; [exact H|contradiction|contradiction].
+    + apply getp_insert.
+    + unfold getp at 1. simpl. rewrite lookup_insert_ne by congruence. rewrite lookup_insert. reflexivity.
+    + intros q Hqc Hqh. unfold getp. simpl. rewrite !lookup_insert_ne by congruence. reflexivity.
+    + intros a b. unfold link, pstore. simpl. destruct (store (getp s host)) as [v|].
+      * apply lget_push_link.
+      * destruct (decide _) as [Heq|_]; [|reflexivity]. inversion Heq; subst. rewrite app_nil_r. reflexivity.
 Qed.
 
 (* ================================================================================================
@@ -479,7 +518,8 @@ Proof.
     destruct (decide (q = c)) as [->|Hne]; unfold ptok, pevents, pstore, pserved.
     + rewrite Hpc. simpl. split; [lia|]. split; [congruence|auto].
     + destruct (decide (q = host)) as [->|Hnh]; [|rewrite Hq by assumption; apply HB].
-      rewrite Hph. specialize (HB host). unfold ptok, pevents, pstore, pserved in HB. destruct HB as (HB1 & HB2 & HB3).
+      rewrite Hph. unfold join_host. destruct (last (ppending s host)) as [o|]; [exact (HB host)|].
+      specialize (HB host). unfold ptok, pevents, pstore, pserved in HB. destruct HB as (HB1 & HB2 & HB3).
       unfold serve_store. simpl. split; [exact HB1|]. split; [exact HB2|].
       destruct (store (getp s host)) eqn:E; [intros; discriminate|exact HB3].
 Qed.
@@ -542,7 +582,8 @@ Proof.
     destruct (pserved s o); simpl; lia.
   - apply step_join in Hstep as (_ & _ & _ & _ & _ & Hpc & Hph & Hq & _).
     destruct (decide (q = c)) as [->|Hne]; unfold ptok, pevents; [rewrite Hpc; reflexivity|].
-    destruct (decide (q = host)) as [->|Hnh]; [rewrite Hph; apply HC; exact Hqw|rewrite Hq by assumption; apply HC; exact Hqw].
+    destruct (decide (q = host)) as [->|Hnh]; [|rewrite Hq by assumption; apply HC; exact Hqw].
+    rewrite Hph. destruct (join_host_fields s) as (_ & -> & -> & _). apply HC. exact Hqw.
 Qed.
 
 Lemma pub_ok_of w tr : only_publisher w tr -> Forall (pub_ok w) tr.
@@ -615,11 +656,11 @@ Record Inv (w : peer) (s : astate) : Prop := {
                pevents s w <> 0%nat \/ link s w host <> [] \/ final_ok w s q
 }.
 
-(* what the invariant tolerates: publications by w, fresh joiners outside the join window *)
+(* what the invariant tolerates: publications by w, fresh joiners (at any moment) *)
 Definition ev_ok (w : peer) (s : astate) (e : aevent) : Prop :=
   match e with
   | APublish q _ => q = w
-  | AJoin _ pre => pre = None /\ ppending s host = []
+  | AJoin _ pre => pre = None
   | _ => True
   end.
 
@@ -874,13 +915,15 @@ Proof.
       unfold queue, ppending. rewrite Hlk, Hq by assumption. reflexivity.
 Qed.
 
-Lemma inv_join w s c s' :
+(* a join while the host is NOT downloading: the host serves its copy and names itself *)
+Lemma inv_join_idle w s c s' :
   awf s -> Inv w s -> ppending s host = [] -> astep s (AJoin c None) = Some s' ->
   Inv w s' /\ pstore s' w = pstore s w.
 Proof.
   intros Hwf HI Hwin Hstep. pose proof (wf_link_hh s Hwf) as Hhh.
   pose proof (basic_step1 s (AJoin c None) s' I Hwf (inv_basic _ _ HI) I Hstep) as HB'.
   apply step_join in Hstep as (Hch & Hcn & Hnone & Hc & _ & Hpc & Hph & Hq & Hl).
+  rewrite (join_host_idle s Hwin) in Hph. pose proof (snapshot_idle s Hwin) as Hsn.
   pose proof (getp_none _ _ Hnone) as Hc0.
   assert (Hlc : link s host c = []) by (apply wf_link_nil; [exact Hwf|apply wf_host; exact Hwf|exact Hcn]).
   assert (Hlc' : link s c host = []) by (apply wf_link_nil; [exact Hwf|exact Hcn|apply wf_host; exact Hwf]).
@@ -925,7 +968,7 @@ Proof.
   - exact iT.
   - exact iP.
   - rewrite Hl. cdec as [Heq|_]; [|apply iI]. inversion Heq; subst a w. rewrite Hlc. cbn [app].
-    unfold snapshot. destruct HK as [[H1|H1]|(_ & _ & H1)].
+    rewrite Hsn. destruct HK as [[H1|H1]|(_ & _ & H1)].
     + exfalso. apply H1. unfold pevents. rewrite Hc0. reflexivity.
     + exfalso. apply H1. exact Hlc'.
     + destruct (pstore s host) eqn:E; [|reflexivity]. exfalso.
@@ -937,7 +980,7 @@ Proof.
   - apply iO. exact H.
   - apply iR. assumption.
   - rewrite Hl in H. cdec as [Heq|_]; [|apply Hmono; eapply iL; exact H].
-    rewrite Hlc in H. cbn [app] in H. unfold snapshot in H. destruct (pstore s host) eqn:E; [|inversion H].
+    rewrite Hlc in H. cbn [app] in H. rewrite Hsn in H. destruct (pstore s host) eqn:E; [|inversion H].
     apply elem_of_list_singleton in H. subst o. rewrite Hsvh. discriminate.
   - apply Hmono. eapply iLp; exact H.
   - destruct (decide (w = host)) as [->|Hwh]; [|rewrite Hsv by assumption; exact iS].
@@ -948,7 +991,7 @@ Proof.
     destruct (decide (q = c)) as [->|Hnq].
     + unfold final_ok, queue. rewrite Hpd. unfold ppending at 1. rewrite Hc0. cbn [pending app].
       rewrite Hl. destruct (decide ((host, c) = (host, c))) as [_|?]; [|congruence]. rewrite Hlc. cbn [app].
-      unfold snapshot. destruct (pstore s host) eqn:E.
+      rewrite Hsn. destruct (pstore s host) eqn:E.
       * simpl. rewrite HK1, HK2. reflexivity.
       * simpl. rewrite Hst, HK2, (HK3 eq_refl). unfold pstore. rewrite Hc0. reflexivity.
     + assert (Hpq : peers s q).
@@ -959,6 +1002,79 @@ Proof.
       destruct (iSt q Hpq H0) as [H1|[H1|H1]]; [contradiction|contradiction|].
       unfold final_ok in *. rewrite Hqu, Hst, HK2. destruct (last (queue s q)) as [o|]; [|exact H1].
       destruct (decide (o = host)) as [->|Hno]; [exact HK1|]. rewrite Hsv by assumption. exact H1.
+Qed.
+
+(* a join while the host IS downloading (the former join window, repair of S26): nothing changes but the new
+   connection and its channel, which names the owner [o] of the host's latest request: whatever makes the host
+   end with w's content (an unread event of w, an announcement on its way up, or o serving what w serves) does
+   the same for the joiner *)
+Lemma inv_join_pend w s c o s' :
+  awf s -> Inv w s -> last (ppending s host) = Some o -> astep s (AJoin c None) = Some s' ->
+  Inv w s' /\ pstore s' w = pstore s w.
+Proof.
+  intros Hwf HI Hlast Hstep. pose proof (wf_link_hh s Hwf) as Hhh.
+  pose proof (basic_step1 s (AJoin c None) s' I Hwf (inv_basic _ _ HI) I Hstep) as HB'.
+  apply step_join in Hstep as (Hch & Hcn & Hnone & Hc & _ & Hpc & Hph & Hq & Hl).
+  rewrite (join_host_pend s o Hlast) in Hph. rewrite (snapshot_pend s o Hlast) in Hl.
+  pose proof (getp_none _ _ Hnone) as Hc0.
+  assert (Hlc : link s host c = []) by (apply wf_link_nil; [exact Hwf|apply wf_host; exact Hwf|exact Hcn]).
+  assert (Hlc' : link s c host = []) by (apply wf_link_nil; [exact Hwf|exact Hcn|apply wf_host; exact Hwf]).
+  assert (Hg : forall q, getp s' q = getp s q).
+  { intros q. destruct (decide (q = c)) as [->|Hne]; [rewrite Hpc, Hc0; reflexivity|].
+    destruct (decide (q = host)) as [->|Hnh]; [exact Hph|apply Hq; assumption]. }
+  assert (Hst : forall q, pstore s' q = pstore s q) by (intros q; unfold pstore; rewrite Hg; reflexivity).
+  assert (Hev : forall q, pevents s' q = pevents s q) by (intros q; unfold pevents; rewrite Hg; reflexivity).
+  assert (Htk : forall q, ptok s' q = ptok s q) by (intros q; unfold ptok; rewrite Hg; reflexivity).
+  assert (Hpd : forall q, ppending s' q = ppending s q) by (intros q; unfold ppending; rewrite Hg; reflexivity).
+  assert (Hsv : forall q, pserved s' q = pserved s q) by (intros q; unfold pserved; rewrite Hg; reflexivity).
+  assert (Hino : o ∈ ppending s host).
+  { apply last_Some in Hlast as [l' ->]. apply elem_of_app. right. apply elem_of_list_singleton. reflexivity. }
+  assert (Hlive : pserved s o <> None) by (apply (inv_live_p _ _ HI host); exact Hino).
+  assert (Hwh : w <> host). { intros ->. rewrite (inv_pend _ _ HI) in Hino. inversion Hino. }
+  (* what the invariant says about the host, which is not the publisher *)
+  assert (HK : pevents s w <> 0%nat \/ link s w host <> [] \/ pserved s o = pserved s w).
+  { destruct (inv_store _ _ HI host (or_introl eq_refl) (not_eq_sym Hwh)) as [H1|[H1|H1]]; [auto|auto|].
+    right. right. unfold final_ok, queue in H1. rewrite Hhh, app_nil_r, Hlast in H1. exact H1. }
+  assert (Hwc : w <> c).
+  { intros ->. destruct HK as [H1|[H1|H1]].
+    - apply H1. unfold pevents. rewrite Hc0. reflexivity.
+    - apply H1. exact Hlc'.
+    - apply Hlive. rewrite H1. unfold pserved. rewrite Hc0. reflexivity. }
+  assert (Hlw : link s' w host = link s w host).
+  { rewrite Hl. cdec as [Heq|_]; [inversion Heq; congruence|reflexivity]. }
+  split; [|apply Hst].
+  destruct HI as [iB iT iP iI iU iO iR iL iLp iS iSt]. constructor; intros; rewrite ?Hev, ?Htk, ?Hpd, ?Hst, ?Hsv, ?Hlw in *.
+  - exact HB'.
+  - exact iT.
+  - exact iP.
+  - rewrite Hl. cdec as [Heq|_]; [inversion Heq; congruence|apply iI].
+  - rewrite Hl. cdec as [Heq|_]; [inversion Heq; congruence|apply iU; assumption].
+  - apply iO. exact H.
+  - apply iR. assumption.
+  - rewrite Hl in H. cdec as [Heq|_]; [|eapply iL; exact H].
+    rewrite Hlc in H. cbn [app] in H. apply elem_of_list_singleton in H. subst o0. exact Hlive.
+  - eapply iLp; exact H.
+  - exact iS.
+  - destruct (decide (q = c)) as [->|Hnq].
+    + destruct HK as [H1|[H1|H1]]; [left; exact H1|right; left; exact H1|]. right. right.
+      apply (final_ok_last _ _ _ o); [|rewrite !Hsv; exact H1].
+      unfold queue. rewrite Hpd. unfold ppending at 1. rewrite Hc0. cbn [pending app].
+      rewrite Hl. destruct (decide ((host, c) = (host, c))) as [_|?]; [|congruence]. rewrite Hlc. reflexivity.
+    + assert (Hpq : peers s q).
+      { destruct H as [H|H]; [left; exact H|]. rewrite Hc in H. apply elem_of_app in H as [H|H]; [right; exact H|].
+        apply elem_of_list_singleton in H. contradiction. }
+      destruct (iSt q Hpq H0) as [H1|[H1|H1]]; [auto|auto|]. right. right.
+      eapply final_ok_ext; [| | |exact H1]; [|apply Hst|apply Hsv].
+      unfold queue. rewrite Hpd, Hl. destruct (decide ((host, q) = (host, c))) as [Heq|_]; [inversion Heq; congruence|reflexivity].
+Qed.
+
+(* a fresh client may join at ANY moment *)
+Lemma inv_join w s c s' :
+  awf s -> Inv w s -> astep s (AJoin c None) = Some s' -> Inv w s' /\ pstore s' w = pstore s w.
+Proof.
+  intros Hwf HI Hstep. destruct (last (ppending s host)) as [o|] eqn:Hlast.
+  - eapply inv_join_pend; eauto.
+  - apply last_None in Hlast. eapply inv_join_idle; eauto.
 Qed.
 
 Lemma inv_publish_quiescent p s c s' :
@@ -991,7 +1107,7 @@ Proof.
   - eapply inv_react1; eauto.
   - eapply inv_deliver; eauto.
   - eapply inv_download; eauto.
-  - destruct Hok as [-> Hwin]. eapply inv_join; eauto.
+  - simpl in Hok. subst pre. eapply inv_join; eauto.
 Qed.
 
 Lemma inv_react w s p s' :
@@ -1046,16 +1162,15 @@ Qed.
 
 (* the run lemma: the current publisher [w] changes at a hand-over *)
 Lemma inv_run tr : forall w s s',
-  awf s -> Inv w s -> fresh_joins tr -> known_join_window s tr = false ->
+  awf s -> Inv w s -> fresh_joins tr ->
   handover_at_quiescence w s tr = true -> arun s tr = Some s' ->
   exists w', awf s' /\ Inv w' s' /\ pstore s' w' = lastd (pstore s w) (published tr).
 Proof.
-  unfold known_join_window.
-  induction tr as [|e tr IH]; intros w s s' Hwf HI Hfj Hwin Hho Hrun.
+  induction tr as [|e tr IH]; intros w s s' Hwf HI Hfj Hho Hrun.
   - simpl in Hrun. inversion Hrun; subst. exists w. auto.
-  - cbn [arun] in Hrun. cbn [scan] in Hwin. cbn [handover_at_quiescence] in Hho.
+  - cbn [arun] in Hrun. cbn [handover_at_quiescence] in Hho.
     destruct (astep s e) as [s1|] eqn:Hstep; [|discriminate].
-    apply orb_false_iff in Hwin as [Hw1 Hwin]. apply fresh_joins_cons in Hfj as [Hf1 Hfj].
+    apply fresh_joins_cons in Hfj as [Hf1 Hfj].
     pose proof (step_wf _ _ _ Hwf Hstep) as Hwf1.
     assert (H1 : exists w1, Inv w1 s1 /\ handover_at_quiescence w1 s1 tr = true /\
                             lastd (pstore s1 w1) (published tr) = lastd (pstore s w) (published (e :: tr))).
@@ -1070,11 +1185,10 @@ Proof.
       - exists w.  destruct (inv_step w s (AReact1 p) s1 Hwf HI I Hstep) as [HI1 Hs1]. rewrite Hs1. auto.
       - exists w.  destruct (inv_step w s (ADeliver src dst) s1 Hwf HI I Hstep) as [HI1 Hs1]. rewrite Hs1. auto.
       - exists w.  destruct (inv_step w s (ADownload p) s1 Hwf HI I Hstep) as [HI1 Hs1]. rewrite Hs1. auto.
-      - exists w. subst pre. simpl in Hw1.
-        assert (Hp0 : ppending s host = []) by (destruct (ppending s host); [reflexivity|discriminate]).
-        destruct (inv_step w s (AJoin c None) s1 Hwf HI (conj eq_refl Hp0) Hstep) as [HI1 Hs1]. rewrite Hs1. auto. }
+      - exists w. subst pre.
+        destruct (inv_step w s (AJoin c None) s1 Hwf HI eq_refl Hstep) as [HI1 Hs1]. rewrite Hs1. auto. }
     destruct H1 as (w1 & HI1 & Hho1 & Hla).
-    destruct (IH w1 s1 s' Hwf1 HI1 Hfj Hwin Hho1 Hrun) as (w' & Hwf' & HI' & Hs').
+    destruct (IH w1 s1 s' Hwf1 HI1 Hfj Hho1 Hrun) as (w' & Hwf' & HI' & Hs').
     exists w'. split; [exact Hwf'|]. split; [exact HI'|]. rewrite Hs'. exact Hla.
 Qed.
 
@@ -1100,18 +1214,27 @@ Qed.
 
 (* ---------- C06, the general form --------------------------------------------------------------------
    The publisher may change, but only in quiescent states (the same peer may publish at ANY pace: bursts,
-   overwrites while the previous content is still travelling); fresh clients may join at any moment
-   outside the join window.  Then every quiescent state shows the last published content on every peer. *)
-Theorem C06_handover n w0 tr s' :
-  arun (ainit n) tr = Some s' -> joins_ok (ainit n) tr -> handover_at_quiescence w0 (ainit n) tr = true ->
+   overwrites while the previous content is still travelling); fresh clients may join at ANY moment (after
+   the repair of S26 also while the host is still downloading the id: there is no join window any more).
+   Then every quiescent state shows the last published content on every peer. *)
+Theorem C06_handover_any_join n w0 tr s' :
+  arun (ainit n) tr = Some s' -> fresh_joins tr -> handover_at_quiescence w0 (ainit n) tr = true ->
   aquiescent s' ->
   forall q, peers s' q -> pstore s' q = last (published tr).
 Proof.
-  intros Hrun [Hfj Hwin] Hho Hq q Hpq.
-  destruct (inv_run tr w0 (ainit n) s' (ainit_wf n) (inv_init w0 n) Hfj Hwin Hho Hrun) as (w' & _ & HI & Hs).
+  intros Hrun Hfj Hho Hq q Hpq.
+  destruct (inv_run tr w0 (ainit n) s' (ainit_wf n) (inv_init w0 n) Hfj Hho Hrun) as (w' & _ & HI & Hs).
   rewrite (inv_quiescent_agree w' s' HI Hq q Hpq), Hs.
   unfold pstore at 1. rewrite ainit_getp. apply lastd_None_last.
 Qed.
+Print Assumptions C06_handover_any_join.
+
+(* the former statement (joins outside the join window only) is a corollary *)
+Corollary C06_handover n w0 tr s' :
+  arun (ainit n) tr = Some s' -> joins_ok (ainit n) tr -> handover_at_quiescence w0 (ainit n) tr = true ->
+  aquiescent s' ->
+  forall q, peers s' q -> pstore s' q = last (published tr).
+Proof. intros Hrun [Hfj _]. apply C06_handover_any_join; assumption. Qed.
 Print Assumptions C06_handover.
 
 Lemma handover_only_publisher w tr : only_publisher w tr -> forall s, handover_at_quiescence w s tr = true.
@@ -1130,14 +1253,19 @@ Proof.
   simpl in H1. rewrite H1, orb_true_r. simpl. apply IH. exact Hops.
 Qed.
 
-(* A2.  C06 for ONE publisher (the host or a client) at ANY pace, fresh clients joining at any moment
-   outside the join window *)
-Theorem C06_single_publisher n w tr s' :
-  arun (ainit n) tr = Some s' -> only_publisher w tr -> joins_ok (ainit n) tr -> aquiescent s' ->
+(* A2.  C06 for ONE publisher (the host or a client) at ANY pace, fresh clients joining at ANY moment *)
+Theorem C06_single_publisher_any_join n w tr s' :
+  arun (ainit n) tr = Some s' -> only_publisher w tr -> fresh_joins tr -> aquiescent s' ->
   forall q, peers s' q -> pstore s' q = last (published tr).
 Proof.
-  intros Hrun Hop Hj. apply (C06_handover n w tr s' Hrun Hj). apply handover_only_publisher. exact Hop.
+  intros Hrun Hop Hj. apply (C06_handover_any_join n w tr s' Hrun Hj). apply handover_only_publisher. exact Hop.
 Qed.
+Print Assumptions C06_single_publisher_any_join.
+
+Corollary C06_single_publisher n w tr s' :
+  arun (ainit n) tr = Some s' -> only_publisher w tr -> joins_ok (ainit n) tr -> aquiescent s' ->
+  forall q, peers s' q -> pstore s' q = last (published tr).
+Proof. intros Hrun Hop [Hfj _]. apply (C06_single_publisher_any_join n w); assumption. Qed.
 Print Assumptions C06_single_publisher.
 
 Lemma ops_no_window tr : forall s s',
@@ -1155,8 +1283,7 @@ Theorem C06_drain_separated n tr s' :
   arun (ainit n) tr = Some s' -> fresh_joins tr -> ops_at_quiescence (ainit n) tr = true -> aquiescent s' ->
   forall q, peers s' q -> pstore s' q = last (published tr).
 Proof.
-  intros Hrun Hfj Hops. apply (C06_handover n host tr s' Hrun); [|apply handover_drain_separated; exact Hops].
-  split; [exact Hfj|]. eapply ops_no_window; eauto.
+  intros Hrun Hfj Hops. apply (C06_handover_any_join n host tr s' Hrun Hfj). apply handover_drain_separated. exact Hops.
 Qed.
 Print Assumptions C06_drain_separated.
 
@@ -1178,15 +1305,22 @@ Proof.
   apply andb_true_iff in H as [H1 H2]. rewrite H1. simpl. apply (IH _ _ H2).
 Qed.
 
-Theorem C06_handover_every_quiescent_state n w0 tr1 tr2 s1 :
-  arun (ainit n) tr1 = Some s1 -> joins_ok (ainit n) (tr1 ++ tr2) ->
+Theorem C06_handover_every_quiescent_state_any_join n w0 tr1 tr2 s1 :
+  arun (ainit n) tr1 = Some s1 -> fresh_joins (tr1 ++ tr2) ->
   handover_at_quiescence w0 (ainit n) (tr1 ++ tr2) = true -> aquiescent s1 ->
   forall q, peers s1 q -> pstore s1 q = last (published tr1).
 Proof.
-  intros Hrun [Hfj Hwin] Hho. apply (C06_handover n w0 tr1 s1 Hrun).
-  - split; [eapply fresh_joins_app; exact Hfj|eapply scan_app; exact Hwin].
+  intros Hrun Hfj Hho. apply (C06_handover_any_join n w0 tr1 s1 Hrun).
+  - eapply fresh_joins_app; exact Hfj.
   - eapply handover_app; exact Hho.
 Qed.
+Print Assumptions C06_handover_every_quiescent_state_any_join.
+
+Corollary C06_handover_every_quiescent_state n w0 tr1 tr2 s1 :
+  arun (ainit n) tr1 = Some s1 -> joins_ok (ainit n) (tr1 ++ tr2) ->
+  handover_at_quiescence w0 (ainit n) (tr1 ++ tr2) = true -> aquiescent s1 ->
+  forall q, peers s1 q -> pstore s1 q = last (published tr1).
+Proof. intros Hrun [Hfj _]. apply C06_handover_every_quiescent_state_any_join; assumption. Qed.
 Print Assumptions C06_handover_every_quiescent_state.
 
 (* ================================================================================================
@@ -1258,63 +1392,99 @@ Proof.
   split; [unfold fresh_joins; vm_compute; repeat constructor|vm_compute; reflexivity].
 Qed.
 
-(* ---------- what remains false ----------------------------------------------------------------------- *)
+(* ---------- the former join window (defect S26), after its repair ----------------------------------------- *)
 
-(* (i) The join window.  Client 1 publishes ONCE; the host has relayed the announcement and started its
-   download when client 2 joins: the snapshot is built from Assets<T>, which does not hold the id yet; the
-   completed download is swallowed by its token.  Client 2 never hears of the id. *)
+(* Client 1 publishes ONCE; the host has relayed the announcement and started its download when client 2
+   joins.  Before the repair the snapshot was built from Assets<T>, which does not hold the id yet, and the
+   completed download was swallowed by its token: client 2 never heard of the id.  Now the snapshot hands on
+   the owner of the host's pending request (client 1): at the end of the OLD witness client 2 has a message
+   waiting; once it is handled client 2 has fetched the content from client 1 directly (the host never
+   serves) *)
 Definition w_join_window : list aevent :=
   [APublish 1 10; AReact 1; ADeliver 1 0; AJoin 2 None; ADownload 0; AReact 0].
+Definition w_join_window_drained : list aevent := w_join_window ++ [ADeliver 0 2; ADownload 2; AReact 2].
 
-Theorem join_during_download_refuted :
-  exists n tr c s',
-    arun (ainit n) tr = Some s' /\ published tr = [10] /\ only_publisher 1 tr /\ fresh_joins tr /\ aquiescent s' /\
-    known_join_window (ainit n) tr = true /\
-    c ∈ aconn s' /\ pstore s' 0 = Some 10 /\ pstore s' 1 = Some 10 /\ pstore s' c = None.
+Example join_during_download_converges :
+  (fun s => (aobs s [0; 1; 2], link s 0 2)) <$> arun (ainit 1) w_join_window
+    = Some ((([Some 10; Some 10; None], false), [None; Some 10; None]), [1]) /\
+  (fun s => aobs s [0; 1; 2]) <$> arun (ainit 1) w_join_window_drained
+    = Some (([Some 10; Some 10; Some 10], true), [None; Some 10; None]) /\
+  published w_join_window_drained = [10] /\ only_publisher 1 w_join_window_drained /\ fresh_joins w_join_window_drained /\
+  known_join_window (ainit 1) w_join_window_drained = true /\
+  total_sent (ainit 1) w_join_window_drained = 2%nat /\ total_downloads (ainit 1) w_join_window_drained = 2%nat.
 Proof.
-  exists 1%nat, w_join_window, 2.
-  destruct (arun_obs (fun s => (aquiescentb s, pstore s 0, pstore s 1, pstore s 2, bool_decide (2 ∈ aconn s)))
-              (ainit 1) w_join_window (true, Some 10, Some 10, None, true)) as (s' & Hrun & Hobs); [vm_compute; reflexivity|].
-  injection Hobs as Hq H0 H1 H2 Hin. apply bool_decide_eq_true in Hq, Hin.
-  exists s'. split; [exact Hrun|]. split; [reflexivity|]. split; [only_pub|].
-  split; [unfold fresh_joins; vm_compute; repeat constructor|]. split; [exact Hq|].
-  split; [vm_compute; reflexivity|]. auto.
+  split; [vm_compute; reflexivity|]. split; [vm_compute; reflexivity|]. split; [reflexivity|]. split; [only_pub|].
+  split; [unfold fresh_joins; vm_compute; repeat constructor|]. repeat split; vm_compute; reflexivity.
 Qed.
 
-(* ... and with an overwrite in flight the joiner is left with the OLD content for ever: the literal event
-   order of the old "host stale" witness: client 3 joins while the host is fetching 20 *)
+(* ... and with an overwrite in flight (the literal event order of the old "host stale" witness: client 3
+   joins while the host is fetching 20): the joiner was left with the OLD content 10 for ever; it now fetches
+   20 from client 1, even before the host has it *)
 Definition w_join_window_stale : list aevent :=
   [APublish 1 10; AReact 1; ADeliver 1 0; ADownload 0; AReact 0;
    APublish 1 20; AReact 1; ADeliver 1 0; AJoin 3 None; ADeliver 0 3; ADownload 3; AReact 3; ADownload 0; AReact 0].
 
-Theorem join_during_overwrite_refuted :
-  exists n tr c s',
-    arun (ainit n) tr = Some s' /\ published tr = [10; 20] /\ only_publisher 1 tr /\ fresh_joins tr /\ aquiescent s' /\
-    known_join_window (ainit n) tr = true /\
-    c ∈ aconn s' /\ pstore s' 0 = Some 20 /\ pstore s' 1 = Some 20 /\ pstore s' c = Some 10.
+Example join_during_overwrite_converges :
+  (fun s => aobs s [0; 1; 3]) <$> arun (ainit 1) w_join_window_stale
+    = Some (([Some 20; Some 20; Some 20], true), [None; Some 20; None]) /\
+  (fun s => pstore s <$> [0; 1; 3]) <$> arun (ainit 1) (take 12 w_join_window_stale) = Some [Some 10; Some 20; Some 20] /\
+  published w_join_window_stale = [10; 20] /\ only_publisher 1 w_join_window_stale /\ fresh_joins w_join_window_stale /\
+  known_join_window (ainit 1) w_join_window_stale = true /\
+  total_sent (ainit 1) w_join_window_stale = 3%nat /\ total_downloads (ainit 1) w_join_window_stale = 3%nat.
 Proof.
-  exists 1%nat, w_join_window_stale, 3.
-  destruct (arun_obs (fun s => (aquiescentb s, pstore s 0, pstore s 1, pstore s 3, bool_decide (3 ∈ aconn s)))
-              (ainit 1) w_join_window_stale (true, Some 20, Some 20, Some 10, true)) as (s' & Hrun & Hobs); [vm_compute; reflexivity|].
-  injection Hobs as Hq H0 H1 H2 Hin. apply bool_decide_eq_true in Hq, Hin.
-  exists s'. split; [exact Hrun|]. split; [reflexivity|]. split; [only_pub|].
-  split; [unfold fresh_joins; vm_compute; repeat constructor|]. split; [exact Hq|].
-  split; [vm_compute; reflexivity|]. auto.
+  split; [vm_compute; reflexivity|]. split; [vm_compute; reflexivity|]. split; [reflexivity|]. split; [only_pub|].
+  split; [unfold fresh_joins; vm_compute; repeat constructor|]. repeat split; vm_compute; reflexivity.
 Qed.
 
-(* the premise on the join window cannot be dropped from C06_single_publisher *)
+(* two joins inside the window of a burst: client 3 joins while the host's first download is pending and a
+   second announcement is on its way up, client 4 while two downloads are pending and a third publication is
+   still unannounced; everybody ends with 30 *)
+Definition w_join_window_burst : list aevent :=
+  [APublish 1 10; AReact 1; ADeliver 1 0; APublish 1 20; AReact 1; AJoin 3 None; ADeliver 1 0; AJoin 4 None;
+   APublish 1 30; AReact 1; ADownload 0; AReact1 0; ADeliver 1 0; ADownload 0; ADownload 0; AReact 0;
+   ADeliver 0 2; ADeliver 0 2; ADeliver 0 2; ADownload 2; ADownload 2; ADownload 2; AReact 2;
+   ADeliver 0 3; ADeliver 0 3; ADeliver 0 3; ADownload 3; ADownload 3; ADownload 3; AReact 3;
+   ADeliver 0 4; ADeliver 0 4; ADownload 4; ADownload 4; AReact 4].
+
+Example join_during_burst_converges :
+  (fun s => aobs s [0; 1; 2; 3; 4]) <$> arun (ainit 2) w_join_window_burst
+    = Some (([Some 30; Some 30; Some 30; Some 30; Some 30], true), [None; Some 30; None; None; None]) /\
+  only_publisher 1 w_join_window_burst /\ fresh_joins w_join_window_burst /\
+  known_join_window (ainit 2) w_join_window_burst = true /\
+  total_sent (ainit 2) w_join_window_burst = 11%nat /\ total_downloads (ainit 2) w_join_window_burst = 11%nat.
+Proof.
+  split; [vm_compute; reflexivity|]. split; [only_pub|].
+  split; [unfold fresh_joins; vm_compute; repeat constructor|]. repeat split; vm_compute; reflexivity.
+Qed.
+
+(* the hand-over form: client 2 joins inside the former window, everything drains, then client 2 itself
+   publishes *)
+Definition w_join_window_handover : list aevent :=
+  w_join_window_drained ++ [APublish 2 20; AReact 2; ADeliver 2 0; ADeliver 0 1; ADownload 0; ADownload 1; AReact 0; AReact 1].
+
+Example join_during_download_then_handover_converges :
+  (fun s => aobs s [0; 1; 2]) <$> arun (ainit 1) w_join_window_handover
+    = Some (([Some 20; Some 20; Some 20], true), [None; Some 10; Some 20]) /\
+  fresh_joins w_join_window_handover /\ handover_at_quiescence 1 (ainit 1) w_join_window_handover = true /\
+  known_join_window (ainit 1) w_join_window_handover = true /\ publishers w_join_window_handover = [1; 2].
+Proof.
+  split; [vm_compute; reflexivity|]. split; [unfold fresh_joins; vm_compute; repeat constructor|].
+  repeat split; vm_compute; reflexivity.
+Qed.
+
+(* the statement that was refuted by the join window (C06_any_join_refuted before the repair) now HOLDS *)
 Definition C06_any_join_statement : Prop :=
   forall n w tr s',
     arun (ainit n) tr = Some s' -> only_publisher w tr -> fresh_joins tr -> aquiescent s' ->
     forall q, peers s' q -> pstore s' q = last (published tr).
 
-Theorem C06_any_join_refuted : ~ C06_any_join_statement.
-Proof.
-  intros H. destruct join_during_download_refuted as (n & tr & c & s' & Hrun & Hp & Hop & Hfj & Hq & _ & Hin & _ & _ & Hc).
-  specialize (H n 1 tr s' Hrun Hop Hfj Hq c (or_intror Hin)). rewrite Hc, Hp in H. discriminate.
-Qed.
+Theorem C06_any_join_holds : C06_any_join_statement.
+Proof. exact C06_single_publisher_any_join. Qed.
+Print Assumptions C06_any_join_holds.
 
-(* (ii) A joiner that already holds a DIFFERENT content under the uuid.  When the host holds the id, the
+(* ---------- what remains false ----------------------------------------------------------------------- *)
+
+(* (i) A joiner that already holds a DIFFERENT content under the uuid.  When the host holds the id, the
    joiner is told to fetch the host's copy (R2: its own cache entry no longer stops the download) and its own
    content is overwritten: the session wins. *)
 Definition w_preloaded : list aevent :=
@@ -1339,7 +1509,7 @@ Proof.
   exists s'. split; [exact Hrun|]. split; [reflexivity|]. split; [exact Hq|]. split; [vm_compute; reflexivity|]. auto.
 Qed.
 
-(* (iii) Two publishers that are NOT drain separated (outside the property): clients 1 and 2 publish
+(* (ii) Two publishers that are NOT drain separated (outside the property): clients 1 and 2 publish
    concurrently; the host applies 10 then 20; each client fetches the other's content: quiescent, and the
    peers disagree for ever *)
 Definition w_concurrent : list aevent :=
@@ -1489,17 +1659,17 @@ Proof.
   eapply (IH s1); [eapply step_wf; eauto|exact Hrun|eapply step_conn_mono; eauto].
 Qed.
 
-(* join_gets_asset: a fresh client that joins at ANY moment outside the join window (whoever the
-   publishers were, as long as they handed over in quiescent states; whatever is still travelling) ends,
-   at every later quiescent state, with the host's content, which is the last published one *)
-Theorem join_gets_asset n w0 tr1 c tr2 s' :
+(* join_gets_asset: a fresh client that joins at ANY moment, the former join window included (whoever the
+   publishers were, as long as they handed over in quiescent states; whatever is still travelling or being
+   downloaded) ends, at every later quiescent state, with the host's content, which is the last published one *)
+Theorem join_gets_asset_any_join n w0 tr1 c tr2 s' :
   let tr := tr1 ++ AJoin c None :: tr2 in
-  arun (ainit n) tr = Some s' -> joins_ok (ainit n) tr -> handover_at_quiescence w0 (ainit n) tr = true ->
+  arun (ainit n) tr = Some s' -> fresh_joins tr -> handover_at_quiescence w0 (ainit n) tr = true ->
   aquiescent s' ->
   c ∈ aconn s' /\ pstore s' c = pstore s' host /\ pstore s' c = last (published tr).
 Proof.
   intros tr Hrun Hj Hho Hq.
-  pose proof (C06_handover n w0 tr s' Hrun Hj Hho Hq) as Hall.
+  pose proof (C06_handover_any_join n w0 tr s' Hrun Hj Hho Hq) as Hall.
   assert (Hin : c ∈ aconn s').
   { unfold tr in Hrun. rewrite arun_app in Hrun. destruct (arun (ainit n) tr1) as [s1|] eqn:Hrun1; [|discriminate].
     cbn [arun] in Hrun. destruct (astep s1 (AJoin c None)) as [s2|] eqn:Hstep; [|discriminate].
@@ -1508,7 +1678,29 @@ Proof.
     apply step_join in Hstep as (_ & _ & _ & -> & _). apply elem_of_app. right. apply elem_of_list_singleton. reflexivity. }
   split; [exact Hin|]. rewrite (Hall c (or_intror Hin)), (Hall host (or_introl eq_refl)). auto.
 Qed.
+Print Assumptions join_gets_asset_any_join.
+
+Corollary join_gets_asset n w0 tr1 c tr2 s' :
+  let tr := tr1 ++ AJoin c None :: tr2 in
+  arun (ainit n) tr = Some s' -> joins_ok (ainit n) tr -> handover_at_quiescence w0 (ainit n) tr = true ->
+  aquiescent s' ->
+  c ∈ aconn s' /\ pstore s' c = pstore s' host /\ pstore s' c = last (published tr).
+Proof. intros tr Hrun [Hfj _]. apply (join_gets_asset_any_join n w0 tr1 c tr2 s'); assumption. Qed.
 Print Assumptions join_gets_asset.
+
+(* client 4 joins while the host is downloading 10 and 20 and a third publication is still unannounced *)
+Example join_gets_asset_any_join_nonvacuous :
+  exists tr1 tr2, w_join_window_burst = tr1 ++ AJoin 4 None :: tr2 /\
+    (fun s => ppending s host) <$> arun (ainit 2) tr1 = Some [1; 1] /\
+    fresh_joins w_join_window_burst /\ handover_at_quiescence 1 (ainit 2) w_join_window_burst = true /\
+    known_join_window (ainit 2) w_join_window_burst = true /\
+    (fun s => aview s [0; 1; 2; 3; 4]) <$> arun (ainit 2) w_join_window_burst
+      = Some ([Some 30; Some 30; Some 30; Some 30; Some 30], true).
+Proof.
+  exists (take 7 w_join_window_burst), (drop 8 w_join_window_burst). split; [reflexivity|].
+  split; [vm_compute; reflexivity|]. split; [unfold fresh_joins; vm_compute; repeat constructor|].
+  repeat split; vm_compute; reflexivity.
+Qed.
 
 Example join_gets_asset_nonvacuous :
   (* client 3 joins while client 1's overwrite 20 is on its way to the host *)
@@ -1531,6 +1723,8 @@ Lemma inv_join_quiescent s c v s2 :
 Proof.
   intros Hwf HB Hqs Hag Hstep. pose proof (basic_step1 s (AJoin c None) s2 I Hwf HB I Hstep) as HB'.
   apply step_join in Hstep as (Hch & Hcn & Hnone & Hc & _ & Hpc & Hph & Hq & Hl).
+  assert (Hwin : ppending s host = []) by (apply (quiescent_peer s host Hqs)).
+  rewrite (join_host_idle s Hwin) in Hph. pose proof (snapshot_idle s Hwin) as Hsn.
   pose proof (getp_none _ _ Hnone) as Hc0.
   assert (Hvh : pstore s host = v) by (apply Hag; left; reflexivity).
   assert (Hidle : forall q, q <> c -> pevents s2 q = 0%nat /\ ptok s2 q = 0%nat /\ ppending s2 q = [] /\ pstore s2 q = pstore s q).
@@ -1551,7 +1745,7 @@ Proof.
   - rewrite Hlk in H. destruct (decide ((host, host) = (host, c))) as [Heq|_]; [inversion Heq; congruence|inversion H].
   - destruct (decide (q = c)) as [->|Hne]; [unfold ptok, pevents; rewrite Hpc; reflexivity|].
     destruct (Hidle q Hne) as (-> & -> & _). reflexivity.
-  - rewrite Hlk in H. cdec as [_|_]; [|inversion H]. unfold snapshot in H.
+  - rewrite Hlk in H. cdec as [_|_]; [|inversion H]. rewrite Hsn in H.
     destruct (pstore s host) eqn:E; [|inversion H]. apply elem_of_list_singleton in H. subst o. rewrite Hsvh. discriminate.
   - destruct (decide (q = c)) as [->|Hne]; [unfold ppending in H; rewrite Hpc in H; inversion H|].
     destruct (Hidle q Hne) as (_ & _ & Hp & _). rewrite Hp in H. inversion H.
@@ -1559,7 +1753,7 @@ Proof.
   - right. right. unfold final_ok, queue. rewrite Hlk, Hsvh. destruct (decide (q = c)) as [->|Hne].
     + unfold ppending, pstore. rewrite Hpc. cbn [pending store app].
       destruct (decide ((host, c) = (host, c))) as [_|?]; [|congruence].
-      unfold snapshot. destruct (pstore s host) eqn:E; simpl; rewrite ?Hsvh; exact (eq_sym E).
+      rewrite Hsn. destruct (pstore s host) eqn:E; simpl; rewrite ?Hsvh; exact (eq_sym E).
     + destruct (Hidle q Hne) as (_ & _ & -> & ->). destruct (decide ((host, q) = (host, c))) as [Heq|_]; [inversion Heq; congruence|].
       simpl. rewrite Hvh. apply Hag. destruct H as [H|H]; [left; exact H|]. rewrite Hc in H.
       apply elem_of_app in H as [H|H]; [right; exact H|]. apply elem_of_list_singleton in H. contradiction.
@@ -1587,7 +1781,7 @@ Proof.
   destruct (inv_join_quiescent s c v s2 Hwf HB Hqs Hag Hstep) as [HI2 Hv].
   pose proof (step_wf _ _ _ Hwf Hstep) as Hwf2.
   destruct (plain_trace tr2 Hpl) as (Hp1 & _ & Hp3 & _ & Hp5 & Hp6).
-  destruct (inv_run tr2 host s2 s' Hwf2 HI2) as (w' & _ & HI' & Hs'); [unfold fresh_joins; rewrite Hp3; constructor|apply Hp5|apply Hp6|exact Hrun|].
+  destruct (inv_run tr2 host s2 s' Hwf2 HI2) as (w' & _ & HI' & Hs'); [unfold fresh_joins; rewrite Hp3; constructor|apply Hp6|exact Hrun|].
   rewrite Hp1 in Hs'. simpl in Hs'. split.
   - eapply (run_conn_mono tr2 s2); [exact Hwf2|exact Hrun|].
     apply step_join in Hstep as (_ & _ & _ & -> & _). apply elem_of_app. right. apply elem_of_list_singleton. reflexivity.
@@ -1830,7 +2024,9 @@ Lemma psum_join F s c pre s' :
   psum F s' = (psum F s + F (APeer pre 0 0 pre []))%nat.
 Proof.
   intros Hwf HF Hstep. apply step_join in Hstep as (Hch & Hcn & Hnone & Hc & _ & Hpc & Hph & Hq & Hl).
-  unfold psum, allp. rewrite Hc. cbn [sumf]. rewrite sumf_app. cbn [sumf]. rewrite Hpc, Hph, HF.
+  assert (HF' : F (join_host s) = F (getp s host)).
+  { unfold join_host. destruct (last (ppending s host)) as [o|]; [reflexivity|apply HF]. }
+  unfold psum, allp. rewrite Hc. cbn [sumf]. rewrite sumf_app. cbn [sumf]. rewrite Hpc, Hph, HF'.
   rewrite (sumf_ext (fun p => F (getp s' p)) (fun p => F (getp s p)) (aconn s)); [lia|].
   intros x Hx. rewrite Hq; [reflexivity|congruence|]. intros ->. apply (wf_host s Hwf Hx).
 Qed.
@@ -1857,7 +2053,29 @@ Proof.
   2:{ intros x Hx. rewrite Hl. cdec as [Heq|_]; [inversion Heq; congruence|reflexivity]. }
   rewrite (sumf_ext (fun x => length (link s' x host)) (fun x => length (link s x host)) (aconn s)).
   2:{ intros x Hx. rewrite Hl. cdec as [Heq|_]; [inversion Heq; subst; exfalso; apply (wf_host s Hwf Hx)|reflexivity]. }
-  unfold snapshot. destruct (pstore s host); simpl; repeat split; lia.
+  unfold snapshot. destruct (last (ppending s host)) as [o|]; [|destruct (pstore s host)]; simpl; repeat split; lia.
+Qed.
+
+(* what a join costs: exactly one message (to the joiner) when the host holds a copy OR is downloading the id,
+   nothing otherwise; and the message names the host itself exactly when the host is not downloading *)
+Theorem join_cost s c pre s' :
+  awf s -> astep s (AJoin c pre) = Some s' ->
+  sent1 s (AJoin c pre) = (if decide (pstore s host <> None \/ ppending s host <> []) then 1 else 0)%nat /\
+  length (link s' host c) = sent1 s (AJoin c pre) /\
+  (forall o, o ∈ link s' host c -> if decide (ppending s host = []) then o = host else last (ppending s host) = Some o).
+Proof.
+  intros Hwf Hstep. apply step_join in Hstep as (_ & Hcn & _ & _ & _ & _ & _ & _ & Hl).
+  assert (Hlc : link s host c = []) by (apply wf_link_nil; [exact Hwf|apply wf_host; exact Hwf|exact Hcn]).
+  rewrite Hl. destruct (decide ((host, c) = (host, c))) as [_|?]; [|congruence]. rewrite Hlc. cbn [app sent1].
+  unfold snapshot. destruct (last (ppending s host)) as [o|] eqn:Hlast.
+  - assert (Hne : ppending s host <> []) by (intros E; rewrite E in Hlast; discriminate).
+    split; [destruct (decide _) as [_|Hn]; [reflexivity|exfalso; apply Hn; right; exact Hne]|]. split; [reflexivity|].
+    intros o' Ho. apply elem_of_list_singleton in Ho. subst o'. destruct (decide _) as [E|_]; [contradiction|reflexivity].
+  - apply last_None in Hlast. destruct (pstore s host) as [v|] eqn:Hst.
+    + split; [destruct (decide _) as [_|Hn]; [reflexivity|exfalso; apply Hn; left; discriminate]|]. split; [reflexivity|].
+      intros o' Ho. apply elem_of_list_singleton in Ho. subst o'. destruct (decide _) as [_|Hn]; [reflexivity|contradiction].
+    + split; [destruct (decide _) as [[Hy|Hy]|_]; [congruence|contradiction|reflexivity]|]. split; [reflexivity|].
+      intros o' Ho. inversion Ho.
 Qed.
 
 (* the three potentials *)
@@ -3375,7 +3593,10 @@ Definition C06_statement : Prop :=
     forall q, peers s' q -> pstore s' q = last (published tr).
 
 Theorem C06_holds : C06_statement.
-Proof. intros n p tr s' Hrun Hop Hnj. apply (C06_single_publisher n p tr s' Hrun Hop). apply no_joins_ok. exact Hnj. Qed.
+Proof.
+  intros n p tr s' Hrun Hop Hnj. apply (C06_single_publisher_any_join n p tr s' Hrun Hop).
+  unfold fresh_joins. rewrite Hnj. constructor.
+Qed.
 Print Assumptions C06_holds.
 
 Example host_serves_only_for_joins_nonvacuous :
@@ -3392,9 +3613,8 @@ Proof. split; [unfold monly_publisher; vm_compute; repeat constructor|vm_compute
 Example awf_invariant_nonvacuous : exists s', arun (ainit 1) w_host_stale = Some s' /\ length (aconn s') = 3%nat.
 Proof. destruct (arun_obs (fun s => length (aconn s)) (ainit 1) w_host_stale 3%nat) as (s' & H1 & H2); [vm_compute; reflexivity|]. exists s'. split; [exact H1|exact H2]. Qed.
 
-Print Assumptions C06_any_join_refuted.
-Print Assumptions join_during_download_refuted.
-Print Assumptions join_during_overwrite_refuted.
+Print Assumptions C06_any_join_holds.
+Print Assumptions join_cost.
 Print Assumptions join_preloaded_private_refuted.
 Print Assumptions concurrent_publishers_disagree.
 Print Assumptions concurrent_publishers_lose_update.
